@@ -51,9 +51,13 @@ def main():
     a = ap.parse_args()
     run, replay = dispatch(a.prop)
 
+    main_pid = os.getpid()
+
     def cleanup():
         from . import common
-        if common._scratch and not os.environ.get('VERIF_KEEP_SCRATCH'):
+        # (forked pool workers inherit this handler: only the main process
+        #  owns the scratch directory)
+        if os.getpid() == main_pid and common._scratch and not os.environ.get('VERIF_KEEP_SCRATCH'):
             shutil.rmtree(common._scratch, ignore_errors=True)
 
     def on_term(*_):                # `timeout` / a kill: leave nothing behind
